@@ -597,6 +597,30 @@ func (n *vfNet) t0Offset(d time.Duration) time.Duration { return d }
 func vfC17Hostile(res *vfResult, c vfC17Case) {
 	n := vfNewNet()
 	co, so := vfC17Opts(c)
+	if c.V.Resumed {
+		// an abbreviated handshake, in which the client sends the last flight: prime two stores on a perfect network
+		cS, sS := vfNewMemStore("c"), vfNewMemStore("s")
+		mk := func() ([]ClientOption, []ServerOption) {
+			co, so := c.V.Cfg.Options(cS, sS)
+
+			return append(co, WithFlightInterval(c.Interval), WithDisableRetransmitBackoff(!c.Backoff)),
+				append(so, WithFlightInterval(c.Interval), WithDisableRetransmitBackoff(!c.Backoff))
+		}
+		co0, so0 := mk()
+		p0, err := vfNewPair(vfNewNet(), co0, so0)
+		if err != nil {
+			return
+		}
+		if ce, se := p0.Handshake(time.Minute); ce != nil || se != nil {
+			p0.Close()
+			synctest.Wait()
+
+			return
+		}
+		p0.Close()
+		synctest.Wait()
+		co, so = mk()
+	}
 	p, err := vfNewPair(n, co, so)
 	if err != nil {
 		return
@@ -999,7 +1023,14 @@ func TestVF_C17(t *testing.T) {
 	maxCut := vfPick(7, 12)
 	for vi, v := range vs {
 		if v.Resumed {
-			continue // needs a primed store; the abbreviated flights are covered by C02/C14
+			// (silence cases need exact flight bookkeeping of a full handshake; the abbreviated flights are covered by
+			// C02/C14) - but a finished endpoint of an abbreviated handshake, whose client sent the last flight, is
+			// fed the hostile phases like any other
+			for _, tgt := range []string{"c", "s"} {
+				cases = append(cases, vfC17Case{V: v, Target: tgt, Interval: time.Second, Backoff: true, Mode: "hostile"})
+			}
+
+			continue
 		}
 		for _, tgt := range []string{"c", "s"} {
 			for cut := 0; cut <= maxCut; cut++ {
